@@ -46,12 +46,17 @@ func ntsExt(t uint16, body []byte) []byte {
 // whose ciphertext carries one cookie field per cookie, sealed under key with the
 // preceding bytes as associated data.
 func NTSResponse(hdr []byte, uid []byte, cookies [][]byte, key []byte) []byte {
-	pkt := append([]byte{}, hdr[:48]...)
-	pkt = append(pkt, ntsExt(0x0104, uid)...)
 	var plain []byte
 	for _, c := range cookies {
 		plain = append(plain, ntsExt(0x0204, c)...)
 	}
+	return NTSResponsePlain(hdr, uid, plain, key)
+}
+
+// NTSResponsePlain seals arbitrary bytes as the encrypted extension fields.
+func NTSResponsePlain(hdr []byte, uid []byte, plain []byte, key []byte) []byte {
+	pkt := append([]byte{}, hdr[:48]...)
+	pkt = append(pkt, ntsExt(0x0104, uid)...)
 	nonce := make([]byte, 16)
 	_, _ = rand.Read(nonce)
 	aead, err := miscreant.NewAEAD("AES-CMAC-SIV", key, 16)
@@ -94,6 +99,11 @@ func NTSOpenRequest(pkt []byte, key []byte) bool {
 // NTSRequest builds an NTS client request: header | unique id | one cookie | np placeholders
 // (type 0x0304, zero body of the cookie's length) | authenticator under key.
 func NTSRequest(hdr, uid, cookie []byte, np int, key []byte) []byte {
+	return NTSRequestPlain(hdr, uid, cookie, np, key, nil)
+}
+
+// NTSRequestPlain is NTSRequest with the given bytes as the authenticator's encrypted plaintext.
+func NTSRequestPlain(hdr, uid, cookie []byte, np int, key []byte, plain []byte) []byte {
 	pkt := append([]byte{}, hdr[:48]...)
 	pkt = append(pkt, ntsExt(0x0104, uid)...)
 	pkt = append(pkt, ntsExt(0x0204, cookie)...)
@@ -106,7 +116,7 @@ func NTSRequest(hdr, uid, cookie []byte, np int, key []byte) []byte {
 	if err != nil {
 		panic(err)
 	}
-	ct := aead.Seal(nil, nonce, nil, pkt)
+	ct := aead.Seal(nil, nonce, plain, pkt)
 	body := make([]byte, 4, 4+16+len(ct))
 	binary.BigEndian.PutUint16(body, 16)
 	binary.BigEndian.PutUint16(body[2:], uint16(len(ct)))
